@@ -254,7 +254,7 @@ Record adcall := ADCALL {
   a_hook : option hook_kind;  (* ScopedBlockHook *)
   a_pubhead : option cid }.   (* what the publisher's head query answers; None = no head (204) *)
 
-Inductive retv := ROk (c : cid) | RNil | RErr.
+Inductive retv := ROk (c : cid) | RNil | RErr | RPanic.   (* the model never yields RPanic *)
 
 Record callout := CO {
   r_ret : retv;
@@ -265,19 +265,24 @@ Record callout := CO {
 
 Definition ads_view (cfg : subcfg) : view := if c_strict cfg then VPrev else VAll.
 
-(* the stop link and the depth limit SyncAdChain resolves to, given the head *)
-Definition resolve_stop (st : substate) (a : adcall) : option cid :=
-  match a_stop a with
-  | Some s => Some s
-  | None => if a_resync a then None else s_latest st
-  end.
+(* SyncAdChain L438-L455, in the order of the Go statements:
+     depthLimit := s.adsDepthLimit; if opts.depthLimit != 0 { depthLimit = recursionLimit(opts.depthLimit) }
+     if opts.resync { if stopAdCid != Undef { stopLnk = stopAdCid } }
+     else { if stopAdCid != Undef { stopLnk = stopAdCid } else { stopLnk = GetLatestSync } } *)
+Definition go_stop (st : substate) (a : adcall) : option cid :=
+  if a_resync a
+  then match a_stop a with Some s => Some s | None => None end
+  else match a_stop a with Some s => Some s | None => s_latest st end.
 
-Definition resolve_depth (cfg : subcfg) (a : adcall) (stop : option cid) : option nat :=
-  let d := if (a_depth a =? 0)%Z then rl (c_ads_depth cfg) else rl (a_depth a) in
+(* ... and L480-L488: if stopLnk != nil { (early return test) }
+     else if s.firstSyncDepth != 0 && opts.depthLimit == 0 { depthLimit = recursionLimit(firstSyncDepth) } *)
+Definition go_depth (cfg : subcfg) (a : adcall) (stop : option cid) : option nat :=
+  let depthLimit := rl (c_ads_depth cfg) in
+  let depthLimit := if negb (a_depth a =? 0)%Z then rl (a_depth a) else depthLimit in
   match stop with
-  | Some _ => d
+  | Some _ => depthLimit
   | None => if negb (c_first_depth cfg =? 0)%Z && (a_depth a =? 0)%Z
-            then rl (c_first_depth cfg) else d
+            then rl (c_first_depth cfg) else depthLimit
   end.
 
 Definition resolve_seg (cfg : subcfg) (a_seg : Z) : Z :=
@@ -290,7 +295,7 @@ Definition resolve_hook (cfg : subcfg) (scoped : option hook_kind) : hook_kind :
   end.
 
 Definition sync_ad_chain (w : world) (cfg : subcfg) (a : adcall) (st : substate) : callout :=
-  let stop := resolve_stop st a in
+  let stop := go_stop st a in
   match (match a_head a with
          | Some h => Some (h, false)
          | None => match a_pubhead a with
@@ -302,7 +307,7 @@ Definition sync_ad_chain (w : world) (cfg : subcfg) (a : adcall) (st : substate)
   | Some (head, queried) =>
     if is_stop stop head then CO (ROk head) [] [] None st
     else
-      let lim := resolve_depth cfg a stop in
+      let lim := go_depth cfg a stop in
       let o := handle w (ads_view cfg) stop lim (resolve_seg cfg (a_seg a))
                       (resolve_hook cfg (a_hook a)) head (s_store st) in
       match h_err o with
@@ -369,6 +374,26 @@ Definition cut (lim : option nat) (l : list cid) : list cid :=
 Definition segment (ch : list cid) (head : cid) (stop : option cid) (lim : option nat) : list cid :=
   cut lim (take_until stop (from head ch)).
 
+(* which stop point and which depth limit apply to a SyncAdChain call, as the options
+   document them: an explicit stop CID wins; otherwise the publisher's latest sync, unless
+   this is a resync; a per-call depth wins over everything; otherwise the first-sync depth
+   when no stop point applies and one is configured; otherwise the subscriber-wide depth;
+   a depth < 1 means "no limit" *)
+Definition stop_table (latest explicit : option cid) (resync : bool) : option cid :=
+  match explicit, resync with
+  | Some s, _ => Some s
+  | None, true => None
+  | None, false => latest
+  end.
+
+Definition depth_table (ads first scoped : Z) (stop : option cid) : option nat :=
+  let pick := if negb (scoped =? 0)%Z then scoped
+              else match stop with
+                   | None => if negb (first =? 0)%Z then first else ads
+                   | Some _ => ads
+                   end in
+  if (pick <? 1)%Z then None else Some (Z.to_nat pick).
+
 (* the world of a chain ch (newest first): each block links its successor with an edge of
    kind k, and carries [extra] other links the chain selectors ignore *)
 Fixpoint chain_dag (k : ekind) (extra : list edge) (ch : list cid) : dag :=
@@ -376,6 +401,27 @@ Fixpoint chain_dag (k : ekind) (extra : list edge) (ch : list cid) : dag :=
   | [] => []
   | c :: r => (c, extra ++ match r with p :: _ => [(k, p)] | [] => [] end) :: chain_dag k extra r
   end.
+
+Definition is_other (e : edge) : bool := match fst e with EOther => true | _ => false end.
+Definition chain_kind (k : ekind) : bool := match k with EOther => false | _ => true end.
+Fixpoint nodupb (l : list cid) : bool :=
+  match l with [] => true | c :: r => negb (memb c r) && nodupb r end.
+
+(* a chain world: the chain link is PreviousID or Next, the other links of a block are of
+   neither kind, no block occurs twice *)
+Definition chain_wf (k : ekind) (extra : list edge) (ch : list cid) : bool :=
+  chain_kind k && forallb is_other extra && nodupb ch.
+
+Definition chain_world (k : ekind) (extra : list edge) (ch pub : list cid) : world :=
+  WORLD (chain_dag k extra ch) pub.
+
+(* every block of l can be had: it is stored locally or the publisher serves it *)
+Definition avail (pub store l : list cid) : bool :=
+  forallb (fun x => memb x store || memb x pub) l.
+
+(* the blocks of seg the local store lacks, in order *)
+Definition missing (store seg : list cid) : list cid :=
+  filter (fun x => negb (memb x store)) seg.
 
 Definition kind_view (k : ekind) : view :=
   match k with EPrev => VPrev | ENext => VNext | EOther => VAll end.
@@ -402,14 +448,14 @@ Record obs := OBS {
   ob_ret : retv;
   ob_hooks : list cid;
   ob_reqs : list cid;
-  ob_latest : option cid;
-  ob_event : option (cid * nat) }.
+  ob_latest : option cid }.
 
 Definition retv_eqb (a b : retv) : bool :=
   match a, b with
   | ROk x, ROk y => x =? y
   | RNil, RNil => true
   | RErr, RErr => true
+  | RPanic, RPanic => true
   | _, _ => false
   end.
 
@@ -418,27 +464,28 @@ Definition cids_eqb := list_eqb N.eqb.
 Definition subset (a b : list cid) : bool := forallb (fun c => memb c b) a.
 Definition set_eqb (a b : list cid) : bool := subset a b && subset b a.
 
-Definition event_eqb (a b : option (cid * nat)) : bool :=
-  option_eqb (fun x y => (fst x =? fst y) && Nat.eqb (snd x) (snd y)) a b.
+Definition event_eqb (x y : cid * nat) : bool := (fst x =? fst y) && Nat.eqb (snd x) (snd y).
 
 Definition obs_ok (o : callout) (b : obs) : bool :=
   retv_eqb (r_ret o) (ob_ret b) && cids_eqb (r_hooks o) (ob_hooks b) &&
-  cids_eqb (r_reqs o) (ob_reqs b) && option_eqb N.eqb (s_latest (r_state o)) (ob_latest b) &&
-  event_eqb (r_event o) (ob_event b).
+  cids_eqb (r_reqs o) (ob_reqs b) && option_eqb N.eqb (s_latest (r_state o)) (ob_latest b).
 
-Fixpoint run_calls (w : world) (cfg : subcfg) (l : list (call * obs)) (st : substate) : bool * substate :=
+(* all calls agree with what was observed; final state; events emitted, in order *)
+Fixpoint run_calls (w : world) (cfg : subcfg) (l : list (call * obs)) (st : substate)
+  : bool * substate * list (cid * nat) :=
   match l with
-  | [] => (true, st)
+  | [] => (true, st, [])
   | (c, b) :: r =>
     let o := run_call w cfg c st in
-    let '(ok, st') := run_calls w cfg r (r_state o) in
-    (obs_ok o b && ok, st')
+    let '(ok, st', evs) := run_calls w cfg r (r_state o) in
+    (obs_ok o b && ok, st', match r_event o with Some e => e :: evs | None => evs end)
   end.
 
-(* world, config, initial state, the calls with what was observed, final store keys *)
-Definition sync_case := (world * subcfg * substate * list (call * obs) * list cid)%type.
+(* world, config, initial state, the calls with what was observed, final store keys,
+   SyncFinished events in order *)
+Definition sync_case := (world * subcfg * substate * list (call * obs) * list cid * list (cid * nat))%type.
 
 Definition sync_case_ok (c : sync_case) : bool :=
-  let '(w, cfg, st, calls, final) := c in
-  let '(ok, st') := run_calls w cfg calls st in
-  ok && set_eqb (s_store st') final.
+  let '(w, cfg, st, calls, final, events) := c in
+  let '(ok, st', evs) := run_calls w cfg calls st in
+  ok && set_eqb (s_store st') final && list_eqb event_eqb evs events.
